@@ -191,11 +191,12 @@ def emitModule (elements : List Elem) : Except OrdErr PyModule :=
   | .ok order =>
     let classes := objectClasses elements
     let defs := order.filterMap fun n => (classes.find? fun c => objName c.cls == n).map classDef
-    let annNames := (defs.map fun d => (d.props.map fun p => p.ann.names).flatten).flatten
-    .ok { typing := ["Any", "List", "Union"].filter fun n => annNames.contains n
-          maybe := annNames.contains "Maybe"
+    -- the Python searches the declaration text for these words; on identifiers that is membership among the names used
+    let allNames := (defs.map ClassDef.names).flatten
+    .ok { typing := ["Any", "List", "Union"].filter fun n => allNames.contains n
+          maybe := allNames.contains "Maybe"
           elements := sortDedupe ((elements ++ (elements.map descendants).flatten).map importName)
-          property := defs.any fun d => !d.props.isEmpty
+          property := allNames.contains "Property"
           classes := defs }
 
 /-- every name the module can refer to at class `i`: imports, builtins, and the classes declared before it -/
